@@ -779,6 +779,33 @@ Example bicg_left_eigenvector_breakdown_nonvacuous : wfS kq_s /\ @sp_tmul AQ kq_
   is_divzero (@solve_bicg SAQ (@sp_mul AQ kq_s) (@sp_tmul AQ kq_s) 2 2 1 [q 2 1; q (-2) 1] [q 0 1; q 0 1] 140 (q 1 1000)) = true.
 Proof. split; [exact kq_s_wf|]. split; [exact kq_left_eigenvector | exact (proj1 kq_bicg_panics)]. Qed.
 
+(* for the implementation's matrix type (sp_tapply = the transposed product of the denoted matrix) *)
+Theorem bicg_left_eigenvector_breakdown_sparse : forall (A : SArith) (FL : FieldLaws (SA A)) (s : sparse (SA A)) itol (b x0 : list (T (SA A))) lam max tol err0 err1,
+  wfS s -> sp_rows s = sp_cols s -> itol = 1 \/ itol = 2 -> length b = sp_rows s -> length x0 = sp_rows s ->
+  let r0 := zipw sub b (sp_apply s x0) in
+  let rho := dot_raw r0 r0 in
+  let alpha := mul rho (fl_inv (SA A) FL (mul rho lam)) in
+  sp_tapply s r0 = vscale r0 lam -> lam <> zero -> rho <> zero ->
+  div (norm2 r0) (nz (norm2 b)) = Ok err0 -> leb err0 tol = false ->
+  div (norm2 (zipw sub r0 (vscale (sp_apply s r0) alpha))) (nz (norm2 b)) = Ok err1 -> leb err1 tol = false ->
+  2 <= max ->
+  run_sparse (BiCG itol) s b x0 max tol = Panic DivZero.
+Proof. intros A FL s itol b x0 lam max tol err0 err1. exact (bicg_left_eigenvector_breakdown_sparse FL s itol b x0 lam max tol err0 err1). Qed.
+Check bicg_left_eigenvector_breakdown_sparse : forall (A : SArith) (FL : FieldLaws (SA A)) (s : sparse (SA A)) itol (b x0 : list (T (SA A))) lam max tol err0 err1,
+  wfS s -> sp_rows s = sp_cols s -> itol = 1 \/ itol = 2 -> length b = sp_rows s -> length x0 = sp_rows s ->
+  let r0 := zipw sub b (sp_apply s x0) in
+  let rho := dot_raw r0 r0 in
+  let alpha := mul rho (fl_inv (SA A) FL (mul rho lam)) in
+  sp_tapply s r0 = vscale r0 lam -> lam <> zero -> rho <> zero ->
+  div (norm2 r0) (nz (norm2 b)) = Ok err0 -> leb err0 tol = false ->
+  div (norm2 (zipw sub r0 (vscale (sp_apply s r0) alpha))) (nz (norm2 b)) = Ok err1 -> leb err1 tol = false ->
+  2 <= max ->
+  run_sparse (BiCG itol) s b x0 max tol = Panic DivZero.
+Print Assumptions bicg_left_eigenvector_breakdown_sparse.
+Example bicg_left_eigenvector_breakdown_sparse_nonvacuous : wfS kq_s /\ sp_rows kq_s = sp_cols kq_s /\ @sp_tmul AQ kq_s [q 2 1; q (-2) 1] = Ok (@vscale AQ [q 2 1; q (-2) 1] (q 2 1)) /\
+  is_divzero (@run_sparse SAQ (BiCG 1) kq_s [q 2 1; q (-2) 1] [q 0 1; q 0 1] 140 (q 1 1000)) = true.
+Proof. split; [exact kq_s_wf|]. split; [reflexivity|]. split; [exact kq_left_eigenvector | exact (proj1 kq_bicg_panics)]. Qed.
+
 (* the MECHANISM of the open finding solve_bicgstab/breakdown as a theorem, exact arithmetic (any field, any sqrt, ANY lam): if the initial
    (= shadow) residual is a left eigenvector of A, <r0, r1> = <r0, s> - omega <A^T r0, s> = 0 because alpha makes <r0, s> vanish: whenever
    solve_bicgstab returns it returns from its FIRST step (Ok 1, or Err `omega == 0`) or from the first line of its second iteration
